@@ -22,7 +22,7 @@ func init() {
 			"Roland checksum rule: (sum of address + payload/size bytes + checksum) mod 128 == 0",
 			"ids and addresses are 7-bit values (sysex data bytes)",
 		},
-		Require: []string{"dataset_values", "request_values", "corruptions_rejected", "checksum_nonzero", "locate_values", "command_values", "held_across_later_build", "reparse_after_modification", "reused_receivers", "dump_packets_built", "appends_to_parsed_payloads", "kept_values_checked_after_gc", "mmc_messages_held_across_later_builds", "built_messages_alive_at_once"},
+		Require: []string{"dataset_values", "request_values", "corruptions_rejected", "checksum_nonzero", "locate_values", "command_values", "held_across_later_build", "reparse_after_modification", "reused_receivers", "dump_packets_built", "appends_to_parsed_payloads", "kept_values_checked_after_gc", "mmc_messages_held_across_later_builds", "built_messages_alive_at_once", "three_byte_fields_at_a_corner_value"},
 		Run:     runC18,
 	})
 }
@@ -38,10 +38,19 @@ func runC18(c *mon.Ctx) {
 		m.DeviceID = r.Byte() & 0x7F
 		m.ModelID = r.Byte() & 0x7F
 		copy(m.Address[:], r.Bytes7(3))
+		// the corners of the three-byte fields: all zero, all 7F, a single bit
+		corner := func(f *[3]byte) {
+			if r.P(1, 6) {
+				*f = [][3]byte{{0, 0, 0}, {0x7F, 0x7F, 0x7F}, {0, 0, 1}, {1, 0, 0}, {0, 0x7F, 0}}[r.Intn(5)]
+				c.Count("three_byte_fields_at_a_corner_value", 1)
+			}
+		}
+		corner(&m.Address)
 		m.InfoRequest = r.P(1, 4)
 		var body []byte // bytes covered by the checksum after the address
 		if m.InfoRequest {
 			copy(m.NumReqBytes[:], r.Bytes7(3))
+			corner(&m.NumReqBytes)
 			body = m.NumReqBytes[:]
 			c.Count("request_values", 1)
 		} else {
